@@ -187,14 +187,18 @@ type jsonS struct {
 
 func generate(c *drv.Ctx) {
 	nTG := 0
-	nRand := 300
+	nRand := 450
 	if c.Tier == "thorough" {
-		nRand = 1500
+		nRand = 3000
 	}
 	randDone := 0
 	emitRand := func() {
 		if randDone < nRand {
-			c.Case(randomCase(c.Rng, c.Tier))
+			if randDone%3 == 2 {
+				c.Case(randomSeq(c.Rng))
+			} else {
+				c.Case(randomCase(c.Rng, c.Tier))
+			}
 			randDone++
 		}
 	}
@@ -416,6 +420,8 @@ func execute(c *drv.Ctx, d M) bool {
 		return execProduce(c, d, cfg)
 	case "rt":
 		return execRT(c, cfg)
+	case "seq":
+		return execSeq(c, cfg)
 	}
 	panic("c15: unknown case kind")
 }
@@ -716,6 +722,15 @@ type jsonStruct struct {
 	B bool        `json:"b"`
 }
 
+// typed JSON destinations with interface{} positions
+type jsonAnyStruct struct {
+	V any            `json:"v"`
+	M map[string]any `json:"m"`
+	L []any          `json:"l"`
+}
+type jsonNamedMap map[string]any
+type jsonNamedList []any
+
 type xmlInner struct {
 	E string `xml:"e"`
 }
@@ -877,7 +892,32 @@ func execRT(c *drv.Ctx, r M) bool {
 	switch codec {
 	case "json":
 		producer, consumer = runtime.JSONProducer(), runtime.JSONConsumer()
-		if v.t == "struct" {
+		if v.t == "anystruct" {
+			m, _ := toGo(codec, v.kids[1]).(map[string]any)
+			l, _ := toGo(codec, v.kids[2]).([]any)
+			src = jsonAnyStruct{V: toGo(codec, v.kids[0]), M: m, L: l}
+			var out jsonAnyStruct
+			dst = &out
+			result = func() val {
+				return val{t: "anystruct", kids: []val{abs(out.V), abs(map[string]any(out.M)), abs([]any(out.L))}}
+			}
+		} else if v.t == "namedmap" {
+			w := v
+			w.t = "map"
+			m, _ := toGo(codec, w).(map[string]any)
+			src = jsonNamedMap(m)
+			var out jsonNamedMap
+			dst = &out
+			result = func() val { r := abs(map[string]any(out)); r.t = "namedmap"; return r }
+		} else if v.t == "namedlist" {
+			w := v
+			w.t = "list"
+			l, _ := toGo(codec, w).([]any)
+			src = jsonNamedList(l)
+			var out jsonNamedList
+			dst = &out
+			result = func() val { r := abs([]any(out)); r.t = "namedlist"; return r }
+		} else if v.t == "struct" {
 			s := jsonStruct{A: string(v.kids[0].s), N: json.Number(v.kids[1].s), L: strList(v.kids[2]), B: v.kids[4].s[0] == 1}
 			if v.kids[3].t == "struct" {
 				s.P = &jsonInner{X: string(v.kids[3].kids[0].s)}
@@ -982,4 +1022,124 @@ func execRT(c *drv.Ctx, r M) bool {
 	}
 	c.W.Event("rt", M{"perr": cls(perr), "cerr": cls(cerr), "v": got.JSON(), "doc": streamkit.Blob(w.Got), "full": full, "panic": panicked})
 	return v.t != "null"
+}
+
+// ---- Part A2: successive Consume calls -----------------------------------------
+
+// execSeq runs a history of ByteStreamConsumer.Consume calls (and caller-side
+// changes of stored []byte values) and logs, after every step, what every
+// destination written so far holds now.
+func execSeq(c *drv.Ctx, cfg M) bool {
+	consumer := runtime.ByteStreamConsumer()
+	var holders []func() []byte // current content of the destination of step j (nil for a mutate step)
+	var pokes []func()          // the caller overwrites byte 0 of the value stored by step j
+	for i, sv := range drv.List(cfg["hist"]) {
+		st := drv.Map(sv)
+		var err error
+		panicked := false
+		if drv.Str(st["op"]) == "consume" {
+			content := []byte(trace.Str(st["content"]))
+			sc := streamkit.Script{Content: content, Term: "eof"}
+			if len(content) > 0 {
+				if i%2 == 0 {
+					sc.Chunks = []int{len(content)}
+				} else {
+					for range content {
+						sc.Chunks = append(sc.Chunks, 1)
+					}
+				}
+			}
+			var dst any
+			var hold func() []byte
+			poke := func() {}
+			switch drv.Str(st["dst"]) {
+			case "pbytes":
+				p := new([]byte)
+				dst, hold = p, func() []byte { return *p }
+				poke = func() {
+					if len(*p) > 0 {
+						(*p)[0] = 238
+					}
+				}
+			case "pnbytes":
+				p := new(myBytes)
+				dst, hold = p, func() []byte { return *p }
+				poke = func() {
+					if len(*p) > 0 {
+						(*p)[0] = 238
+					}
+				}
+			case "anybytes":
+				var a any = []byte{}
+				dst, hold = &a, func() []byte { b, _ := a.([]byte); return b }
+				poke = func() {
+					if b, _ := a.([]byte); len(b) > 0 {
+						b[0] = 238
+					}
+				}
+			case "pstring":
+				p := new(string)
+				dst, hold = p, func() []byte { return []byte(*p) }
+			case "anystring":
+				var a any = ""
+				dst, hold = &a, func() []byte { s, _ := a.(string); return []byte(s) }
+			case "binunm":
+				u := &binU{}
+				dst, hold = u, func() []byte { return u.got }
+			default:
+				panic("c15: unknown seq destination " + drv.Str(st["dst"]))
+			}
+			holders = append(holders, hold)
+			pokes = append(pokes, poke)
+			panicked = func() (p bool) {
+				defer func() {
+					if r := recover(); r != nil {
+						p = true
+					}
+				}()
+				err = consumer.Consume(streamkit.NewReader(sc), dst)
+				return false
+			}()
+		} else {
+			pokes[drv.Int(st["target"])-1]()
+			holders = append(holders, func() []byte { return nil })
+			pokes = append(pokes, func() {})
+		}
+		held := make([]M, 0, len(holders))
+		for _, h := range holders {
+			held = append(held, streamkit.Blob(h()))
+		}
+		ec := errClass(err)
+		if panicked {
+			ec = "none"
+		}
+		c.W.Event("seq", M{"i": i + 1, "err": ec, "held": held, "panic": panicked})
+	}
+	return true
+}
+
+var seqDsts = []string{"pbytes", "pnbytes", "anybytes", "pstring", "anystring", "binunm"}
+
+// randomSeq: a longer history with contents up to 64 bytes (kept explicit so
+// that the specification can apply the caller's changes to them).
+func randomSeq(rng *rand.Rand) M {
+	var hist []M
+	var byteSteps []int
+	for i, n := 0, 3+rng.Intn(10); i < n; i++ {
+		if len(byteSteps) > 0 && rng.Intn(4) == 0 {
+			hist = append(hist, M{"op": "mutate", "dst": "", "content": []int{}, "target": byteSteps[rng.Intn(len(byteSteps))]})
+			continue
+		}
+		content := make([]byte, rng.Intn(65))
+		rng.Read(content)
+		dst := seqDsts[rng.Intn(len(seqDsts))]
+		if rng.Intn(2) == 0 {
+			dst = seqDsts[rng.Intn(3)]
+		}
+		if dst == "pbytes" || dst == "pnbytes" || dst == "anybytes" {
+			byteSteps = append(byteSteps, i+1)
+		}
+		hist = append(hist, M{"op": "consume", "dst": dst, "content": trace.B(string(content)), "target": 0})
+	}
+	return M{"kind": "seq", "cfg": M{"hist": hist}, "origin": "rand"}
 }
